@@ -85,7 +85,8 @@ func newSortedOutcome(
 ) Outcome {
 	pendingCommitsCP := append([]CommitData{}, pendingCommits...)
 	reportCP := append([]cciptypes.ExecutePluginReportSingleChain{}, report.ChainReports...)
-	sort.Slice(
+	// Stable: reports sharing (source chain, start) must keep the deterministic order they arrive in.
+	sort.SliceStable(
 		pendingCommitsCP,
 		func(i, j int) bool {
 			if pendingCommitsCP[i].SourceChain != pendingCommitsCP[j].SourceChain {
@@ -93,7 +94,7 @@ func newSortedOutcome(
 			}
 			return pendingCommitsCP[i].SequenceNumberRange.Start() < pendingCommitsCP[j].SequenceNumberRange.Start()
 		})
-	sort.Slice(
+	sort.SliceStable(
 		reportCP,
 		func(i, j int) bool {
 			return reportCP[i].SourceChainSelector < reportCP[j].SourceChainSelector
